@@ -76,8 +76,13 @@ def collect(ctx: Ctx):
     dev = landev.LanDevice(loop, net, Echo(), version=2)
     dev._v2_orig = dev._v2
 
+    drop = {"n": 0}
+
     def spy(tr, data):
         wire.append(bytes(data))
+        if drop["n"] > 0:                  # the device misses this transmission: the library will retransmit after its read timeout
+            drop["n"] -= 1
+            return
         # the device answers whatever frame the REFERENCE parser finds, reversed
         o = landev.v2_unwrap(data)
         if o["ok"]:
@@ -90,8 +95,10 @@ def collect(ctx: Ctx):
             devid = rng.choice(BOUNDARY_IDS + [rng.getrandbits(64)])
             l = LAN("10.0.0.1", 6444, devid)
             wire.clear()
+            lost = (n // ctx.pick(5, 1)) % 4 if n % 2 == 0 else 0       # 0..3 transmissions go unanswered (3 = the whole budget)
+            drop["n"] = lost
             try:
-                resp = await l.send(f, retries=1)
+                resp = await l.send(f, retries=3 if lost else 1)
                 res = {"k": "frame", "f": B(resp[0]) if resp else []}
                 nresp = len(resp)
             except Exception as e:  # noqa: BLE001
@@ -100,9 +107,14 @@ def collect(ctx: Ctx):
             d8 = devid.to_bytes(8, "little")
             w = wire[0] if wire else b""
             vectors.append({"kind": "encode", "frame": B(f), "devid": B(d8), "res": {"k": "frame", "f": B(w)}, "o": v2_oracle(w), "via": "LAN.send"})
-            back = landev.v2_wrap(f[::-1], devid)
-            vectors.append({"kind": "decode", "frame": B(f[::-1]), "devid": B(d8), "p": B(back), "o": v2_oracle(back), "res": res,
-                            "via": "LAN.send", "nresp": nresp})
+            for j, wj in enumerate(wire[1:]):      # every retransmission must be the same frame in a well-formed packet, too
+                vectors.append({"kind": "encode", "frame": B(f), "devid": B(d8), "res": {"k": "frame", "f": B(wj)}, "o": v2_oracle(wj),
+                                "via": f"LAN.send retransmission {j + 1}"})
+            drop["n"] = 0
+            if lost < 3:
+                back = landev.v2_wrap(f[::-1], devid)
+                vectors.append({"kind": "decode", "frame": B(f[::-1]), "devid": B(d8), "p": B(back), "o": v2_oracle(back), "res": res,
+                                "via": "LAN.send", "nresp": nresp})
             if l._protocol:
                 l._disconnect()
 
